@@ -70,13 +70,20 @@ static Value matv(const AMatrix& m)
   return a;
 }
 
-struct Scene
+// A configuration whose reference (or fast) path may crash the library writes what it already has
+// as a "partial" line first; the driver keeps the last line of every id together with the crash record.
+static int OUT_FD = -1;
+static int CUR_ID = 0;
+static std::string CUR_PAIR;
+static void checkpoint(Value out)
 {
-  int ndim = 2;
-  int nvar = 1;
-  std::string model;
-  std::string drift;
-};
+  out["id"] = Value(CUR_ID);
+  out["pair"] = Value(CUR_PAIR);
+  out["partial"] = Value(true);
+  std::string line = vj::dump(out) + "\n";
+  ssize_t w = write(OUT_FD, line.data(), line.size());
+  (void)w;
+}
 
 static VectorDouble coordData(const Value& p, int i)
 {
@@ -621,8 +628,7 @@ static Value caseColcok(const Value& c)
     ANeigh* ng = (ngk == "unique") ? (ANeigh*)NeighUnique::create() : (ANeigh*)makeMoving(100, 0, 1);
     out["plain"] = runKriging(dbin, dout, model, ng, 2);
   }
-  // the result lines written so far are flushed by the caller only at the end: write a marker file
-  // is not needed, the parent records the crash with the case id
+  checkpoint(out);
   Model* model = makeModel(mid, c.at("drift").s());
   Db* dbin = makeData(c.at("pts"), &c.at("sel"), &c.at("def"), 2);
   Db* dout = makeTargets(c.at("tgt"));
@@ -777,49 +783,6 @@ static Value caseCalc(const Value& c)
   out["fast"] = fast;
   out["taken"] = Value(true);
   out["how"] = Value("results read from a KrigingCalcul object fed with Sigma, X, Sigma0, X0, Sigma00 (and the option of the form)");
-
-  // reference A: the standard calculators of the library
-  if (form == "primal" || form == "dual")
-  {
-    Model* m2 = makeModel(mid, drift);
-    Db* d2 = makeData(c.at("pts"), &c.at("sel"), &c.at("def"), nvar);
-    Db* t2 = makeTargets(c.at("tgt"));
-    NeighUnique* nu = NeighUnique::create();
-    ref = runKriging(d2, t2, m2, nu, nvar);
-  }
-  else if (form == "bayes")
-  {
-    Model* m2 = makeModel(mid, drift);
-    Db* d2 = makeData(c.at("pts"), &c.at("sel"), &c.at("def"), nvar);
-    Db* t2 = makeTargets(c.at("tgt"));
-    NeighUnique* nu = NeighUnique::create();
-    VectorString before = t2->getAllNames();
-    int err = kribayes(d2, t2, m2, nu, priorMean, priorCov, true, true);
-    ref = krigOut(t2, before, nvar);
-    ref["err"] = Value(err);
-  }
-  else if (form == "colcok")
-  {
-    ref = refAddedDatum(c, mid, q, "unique");
-  }
-  else if (form == "xvalid")
-  {
-    // data without the variables of sample xv, target = location of sample xv
-    Model* m2 = makeModel(mid, drift);
-    Db* d2 = makeData(c.at("pts"), &c.at("sel"), &c.at("def"), nvar);
-    for (int v = 0; v < nvar; v++) d2->setLocVariable(ELoc::Z, xv, v, TEST);
-    Db* t2 = Db::create();
-    VectorDouble xyz = d2->getSampleCoordinates(xv);
-    for (int d = 0; d < (int)xyz.size(); d++) t2->addColumns({xyz[d]}, "x" + std::to_string(d + 1), ELoc::X, d);
-    NeighUnique* nu = NeighUnique::create();
-    Value r = runKriging(d2, t2, m2, nu, nvar);
-    // keep the variables that were defined at xv (the cross-validated equations)
-    Value e = Value::array(), s = Value::array(), z = Value::array();
-    for (int v : rankXvVars) { e.push(r.at("estim")[v]); s.push(r.at("stdev")[v]); z.push(r.at("varz")[v]); }
-    ref["estim"] = e; ref["stdev"] = s; ref["varz"] = z; ref["err"] = r.at("err");
-  }
-  out["ref"] = ref;
-
   // reference B: direct dense solve (long double) of the standard system that the specification
   // gives as the reference of the form (FastPathsAlgebra: StdUK / StdSK, RefBayes, RefColCok, RefXvalid)
   {
@@ -907,6 +870,50 @@ static Value caseCalc(const Value& c)
     }
   }
   out["dense"] = dense;
+  checkpoint(out);
+
+  // reference A: the standard calculators of the library
+  if (form == "primal" || form == "dual")
+  {
+    Model* m2 = makeModel(mid, drift);
+    Db* d2 = makeData(c.at("pts"), &c.at("sel"), &c.at("def"), nvar);
+    Db* t2 = makeTargets(c.at("tgt"));
+    NeighUnique* nu = NeighUnique::create();
+    ref = runKriging(d2, t2, m2, nu, nvar);
+  }
+  else if (form == "bayes")
+  {
+    Model* m2 = makeModel(mid, drift);
+    Db* d2 = makeData(c.at("pts"), &c.at("sel"), &c.at("def"), nvar);
+    Db* t2 = makeTargets(c.at("tgt"));
+    NeighUnique* nu = NeighUnique::create();
+    VectorString before = t2->getAllNames();
+    int err = kribayes(d2, t2, m2, nu, priorMean, priorCov, true, true);
+    ref = krigOut(t2, before, nvar);
+    ref["err"] = Value(err);
+  }
+  else if (form == "colcok")
+  {
+    ref = refAddedDatum(c, mid, q, "unique");
+  }
+  else if (form == "xvalid")
+  {
+    // data without the variables of sample xv, target = location of sample xv
+    Model* m2 = makeModel(mid, drift);
+    Db* d2 = makeData(c.at("pts"), &c.at("sel"), &c.at("def"), nvar);
+    for (int v = 0; v < nvar; v++) d2->setLocVariable(ELoc::Z, xv, v, TEST);
+    Db* t2 = Db::create();
+    VectorDouble xyz = d2->getSampleCoordinates(xv);
+    for (int d = 0; d < (int)xyz.size(); d++) t2->addColumns({xyz[d]}, "x" + std::to_string(d + 1), ELoc::X, d);
+    NeighUnique* nu = NeighUnique::create();
+    Value r = runKriging(d2, t2, m2, nu, nvar);
+    // keep the variables that were defined at xv (the cross-validated equations)
+    Value e = Value::array(), s = Value::array(), z = Value::array();
+    for (int v : rankXvVars) { e.push(r.at("estim")[v]); s.push(r.at("stdev")[v]); z.push(r.at("varz")[v]); }
+    ref["estim"] = e; ref["stdev"] = s; ref["varz"] = z; ref["err"] = r.at("err");
+  }
+
+  out["ref"] = ref;
   return out;
 }
 
@@ -990,6 +997,7 @@ int main(int argc, char** argv)
     if (pid == 0)
     {
       alarm(60);
+      OUT_FD = fd; CUR_ID = id; CUR_PAIR = c.at("pair").s();
       std::string line;
       try
       {
